@@ -47,6 +47,8 @@ class P:
     def dprop(self):
         v = self.k * 100
         return v
+    def relay(self, other, x):
+        return other.meth(x)
     @deco
     @deco
     def wrapped2(self, x):
@@ -264,6 +266,30 @@ def run(chk):
             else:
                 chk.violation("oracle", "selector %r fired %d times for 2 calls on the probed receiver and 2 on another" % (
                     sel, len(evs)), {"selector": sel, "events": treegen.snap_json(list(evs))})
+    # two object selectors in one call path: each level has its own receiver
+    pop = [mod.P(1), mod.P(2), mod.P(3)]
+    env = dict(mod.__dict__)
+    env.update({"o%d" % i: o for i, o in enumerate(pop)})
+    try:
+        with ptera.probing("o0.relay > o1.meth > v", env=env) as pr:
+            evs = pr.accum()
+            pop[0].relay(pop[1], 5)      # the only call whose path is o0.relay > o1.meth
+            pop[0].relay(pop[2], 5)
+            pop[2].relay(pop[1], 5)
+            pop[1].meth(5)
+        got = [e.get("v") for e in evs]
+    except Exception as e:
+        got = "%s: %s" % (type(e).__name__, e)
+    chk.count(("nested-objects",), nontrivial=True)
+    chk.dist("two object selectors in one path")
+    if got != [7]:
+        if got == [] and chk.is_known("F34"):
+            chk.known_finding("F34", "o0.relay > o1.meth > v never fires: both levels capture their receiver under the "
+                              "same name and the outer one shadows the inner one")
+            stats["known_F24"] += 1
+        else:
+            chk.violation("oracle", "o0.relay > o1.meth > v observed v = %r for calls of which exactly one follows the "
+                          "path (expected [7])" % (got,), {"selector": "o0.relay > o1.meth > v"})
     # property / decorator access paths resolve to the underlying function
     with ptera.probing("P.prop > v", env=mod.__dict__).values() as evs:
         a = mod.P(3).prop
